@@ -10,7 +10,7 @@ from lib import esc, unesc, esc_list, unesc_list
 
 THEOREMS = ['C05.C05_rule_lines_untouched_complain', 'C05.C05_rule_lines_untouched_enforce',
             'C05.C05_complain_sets', 'C05.C05_enforce_unsets', 'C05.C05_complain_keeps_other_flags',
-            'C05.C05_enforce_keeps_other_flags', 'C05.C05_enforce_needs_nodup', 'C05.C05_complain_every_block',
+            'C05.C05_enforce_keeps_other_flags', 'C05.C05_enforce_listed_twice', 'C05.C05_complain_every_block',
             'C05.C05_enforce_every_block']
 FLAGS = re.compile(r'flags=\(([^)]*)\)')
 HDR = re.compile(r'^\s*(profile\s|hat\s|\^)')
@@ -93,7 +93,7 @@ def gen_text(rng, wf=True):
 
 
 def wf_text(t):
-    """WF5: every line ending in ' {' (followed by a newline) is a block header with at most one, well-formed, duplicate-free
+    """WF5: every line ending in ' {' (followed by a newline) is a block header with at most one, well-formed
     flags clause, and no other line mentions flags=( or ends with '{'."""
     ls = t.split('\n')
     for i, l in enumerate(ls):
@@ -105,7 +105,7 @@ def wf_text(t):
             ms = FLAGS.findall(l)
             if l.count('flags=(') != len(ms) or len(ms) > 1:
                 return False
-            if ms and (ms[0] == '' or len(set(ms[0].split(','))) != len(ms[0].split(',')) or '' in ms[0].split(',')):
+            if ms and (ms[0] == '' or '' in ms[0].split(',')):      # (a flag listed twice is inside the class since the fix commit)
                 return False
             if 'flags=(' in FLAGS.sub('', l):
                 return False
